@@ -7,12 +7,15 @@ import render_util as R
 
 
 def check_links(w):
-    pages, raw = R.render(w['src'], split_level=w['level'], toc_non_files=w.get('tnf', False))
+    base = w.get('base', '')
+    pages, raw = R.render(w['src'], split_level=w['level'], toc_non_files=w.get('tnf', False), base_url=base)
     for f, p in pages.items():
         dup = [i for i in set(p.ids) if p.ids.count(i) > 1]
         if dup:
             return False, 'identifier(s) %r occur twice in %s' % (dup, f)
         for h in p.hrefs:
+            if base and h.startswith(base.rstrip('/') + '/'):
+                h = h[len(base.rstrip('/')) + 1:]          # an absolute link into the document itself
             if ':' in h.split('#')[0] or h.startswith('//') or h.startswith('mailto'):
                 continue
             target, _, frag = h.partition('#')
@@ -27,6 +30,8 @@ def check_links(w):
     while todo:
         f = todo.pop()
         for h in pages[f].hrefs:
+            if base and h.startswith(base.rstrip('/') + '/'):
+                h = h[len(base.rstrip('/')) + 1:]
             t = h.partition('#')[0]
             if t and t in pages and t not in seen:
                 seen.add(t)
@@ -38,7 +43,22 @@ def check_links(w):
 
 def gen_links(rng):
     src, words, labs, refs = R.gen_doc(rng, depth=2)
-    return dict(src=src, level=rng.choice([-10, 0, 1, 2, 3]), tnf=rng.random() < 0.3)
+    extra, pre = '', ''
+    if rng.random() < 0.5:
+        # index entries (plain, with a page format, cross-references) spread over the sections, and the index itself
+        pre += '\\usepackage{makeidx}\\makeindex'
+        ents = ['apple', 'pear', 'fig!green', 'plum|textbf', 'kiwi|see{apple}', 'lime|seealso{pear}', 'apple', 'date|(', 'date|)']
+        body, tail = src.rsplit('\\end{document}', 1)
+        parts = body.split('\\section')
+        for i in range(1, len(parts)):
+            if rng.random() < 0.7:
+                parts[i] = parts[i] + ' idx\\index{%s} ' % rng.choice(ents)
+        src = '\\section'.join(parts) + '\\end{document}' + tail
+        extra += ' tail\\index{%s} \\printindex ' % rng.choice(ents)
+    if rng.random() < 0.4:
+        src = src.replace('\\end{document}', ' cites \\cite{k1} and \\cite{k2} \\begin{thebibliography}{9}\\bibitem{k1} Ref one \\bibitem{k2} Ref two\\end{thebibliography}\\end{document}')
+    src = src.replace('\\begin{document}', pre + '\\begin{document}').replace('\\end{document}', extra + '\\end{document}')
+    return dict(src=src, level=rng.choice([-10, 0, 1, 2, 3]), tnf=rng.random() < 0.3, base=rng.choice(['', '', 'http://example.org/doc/', 'http://example.org/d']))
 
 
 def bounded_links(budget, rng):
@@ -58,5 +78,5 @@ def bounded_links(budget, rng):
 CONTRACTS = {}
 GROUND = []
 BOUNDED = [('bounded/render-links', 'every internal href names a produced file and an existing id; ids unique per file; all files reachable from the start page',
-            'random sectioned documents with labels / references / footnotes x split level in {-10,0,1,2,3} x toc-non-files; budget-limited', bounded_links)]
+            'random sectioned documents with labels / references / footnotes, index entries (plain, page formats, see / seealso, ranges) with \\printindex, bibliography with citations x split level in {-10,0,1,2,3} x toc-non-files x base-url empty / set; budget-limited', bounded_links)]
 CLASSES = {}
